@@ -58,12 +58,18 @@ Format/Glencoe.vos Format/Glencoe.vok Format/Glencoe.required_vos: Format/Glenco
 Format/Xml.vo Format/Xml.glob Format/Xml.v.beautified Format/Xml.required_vo: Format/Xml.v Base/Result.vo Base/Str.vo Base/AstOp.vo Model/Ast.vo Model/FM.vo Model/PFM.vo Model/Queries.vo Format/Json.vo Gen/Tables_fide.vo
 Format/Xml.vio: Format/Xml.v Base/Result.vio Base/Str.vio Base/AstOp.vio Model/Ast.vio Model/FM.vio Model/PFM.vio Model/Queries.vio Format/Json.vio Gen/Tables_fide.vio
 Format/Xml.vos Format/Xml.vok Format/Xml.required_vos: Format/Xml.v Base/Result.vos Base/Str.vos Base/AstOp.vos Model/Ast.vos Model/FM.vos Model/PFM.vos Model/Queries.vos Format/Json.vos Gen/Tables_fide.vos
+Gen/Tables_metrics.vo Gen/Tables_metrics.glob Gen/Tables_metrics.v.beautified Gen/Tables_metrics.required_vo: Gen/Tables_metrics.v Base/AstOp.vo
+Gen/Tables_metrics.vio: Gen/Tables_metrics.v Base/AstOp.vio
+Gen/Tables_metrics.vos Gen/Tables_metrics.vok Gen/Tables_metrics.required_vos: Gen/Tables_metrics.v Base/AstOp.vos
+Model/Metrics.vo Model/Metrics.glob Model/Metrics.v.beautified Model/Metrics.required_vo: Model/Metrics.v Base/Result.vo Base/Str.vo Base/PyFloat.vo Base/AstOp.vo Model/Ast.vo Model/FM.vo Model/Ctc.vo Model/Queries.vo Model/Ops.vo Model/EqHash.vo Gen/Tables_metrics.vo
+Model/Metrics.vio: Model/Metrics.v Base/Result.vio Base/Str.vio Base/PyFloat.vio Base/AstOp.vio Model/Ast.vio Model/FM.vio Model/Ctc.vio Model/Queries.vio Model/Ops.vio Model/EqHash.vio Gen/Tables_metrics.vio
+Model/Metrics.vos Model/Metrics.vok Model/Metrics.required_vos: Model/Metrics.v Base/Result.vos Base/Str.vos Base/PyFloat.vos Base/AstOp.vos Model/Ast.vos Model/FM.vos Model/Ctc.vos Model/Queries.vos Model/Ops.vos Model/EqHash.vos Gen/Tables_metrics.vos
 Extract/Codec.vo Extract/Codec.glob Extract/Codec.v.beautified Extract/Codec.required_vo: Extract/Codec.v Base/Result.vo Base/Str.vo Base/Sexp.vo Base/AstOp.vo Model/Ast.vo Model/FM.vo Model/PFM.vo Format/Xml.vo
 Extract/Codec.vio: Extract/Codec.v Base/Result.vio Base/Str.vio Base/Sexp.vio Base/AstOp.vio Model/Ast.vio Model/FM.vio Model/PFM.vio Format/Xml.vio
 Extract/Codec.vos Extract/Codec.vok Extract/Codec.required_vos: Extract/Codec.v Base/Result.vos Base/Str.vos Base/Sexp.vos Base/AstOp.vos Model/Ast.vos Model/FM.vos Model/PFM.vos Format/Xml.vos
-Extract/Driver.vo Extract/Driver.glob Extract/Driver.v.beautified Extract/Driver.required_vo: Extract/Driver.v Base/Result.vo Base/Str.vo Base/Sexp.vo Base/AstOp.vo Model/Ast.vo Model/FM.vo Model/Ctc.vo Model/Queries.vo Model/Sem.vo Model/Ops.vo Model/EqHash.vo Model/PFM.vo Format/Json.vo Format/Glencoe.vo Format/Xml.vo Extract/Codec.vo
-Extract/Driver.vio: Extract/Driver.v Base/Result.vio Base/Str.vio Base/Sexp.vio Base/AstOp.vio Model/Ast.vio Model/FM.vio Model/Ctc.vio Model/Queries.vio Model/Sem.vio Model/Ops.vio Model/EqHash.vio Model/PFM.vio Format/Json.vio Format/Glencoe.vio Format/Xml.vio Extract/Codec.vio
-Extract/Driver.vos Extract/Driver.vok Extract/Driver.required_vos: Extract/Driver.v Base/Result.vos Base/Str.vos Base/Sexp.vos Base/AstOp.vos Model/Ast.vos Model/FM.vos Model/Ctc.vos Model/Queries.vos Model/Sem.vos Model/Ops.vos Model/EqHash.vos Model/PFM.vos Format/Json.vos Format/Glencoe.vos Format/Xml.vos Extract/Codec.vos
+Extract/Driver.vo Extract/Driver.glob Extract/Driver.v.beautified Extract/Driver.required_vo: Extract/Driver.v Base/Result.vo Base/Str.vo Base/Sexp.vo Base/AstOp.vo Model/Ast.vo Model/FM.vo Model/Ctc.vo Model/Queries.vo Model/Sem.vo Model/Ops.vo Model/EqHash.vo Model/PFM.vo Format/Json.vo Format/Glencoe.vo Format/Xml.vo Model/Metrics.vo Extract/Codec.vo
+Extract/Driver.vio: Extract/Driver.v Base/Result.vio Base/Str.vio Base/Sexp.vio Base/AstOp.vio Model/Ast.vio Model/FM.vio Model/Ctc.vio Model/Queries.vio Model/Sem.vio Model/Ops.vio Model/EqHash.vio Model/PFM.vio Format/Json.vio Format/Glencoe.vio Format/Xml.vio Model/Metrics.vio Extract/Codec.vio
+Extract/Driver.vos Extract/Driver.vok Extract/Driver.required_vos: Extract/Driver.v Base/Result.vos Base/Str.vos Base/Sexp.vos Base/AstOp.vos Model/Ast.vos Model/FM.vos Model/Ctc.vos Model/Queries.vos Model/Sem.vos Model/Ops.vos Model/EqHash.vos Model/PFM.vos Format/Json.vos Format/Glencoe.vos Format/Xml.vos Model/Metrics.vos Extract/Codec.vos
 Extract/Extract.vo Extract/Extract.glob Extract/Extract.v.beautified Extract/Extract.required_vo: Extract/Extract.v Base/Sexp.vo Extract/Driver.vo
 Extract/Extract.vio: Extract/Extract.v Base/Sexp.vio Extract/Driver.vio
 Extract/Extract.vos Extract/Extract.vok Extract/Extract.required_vos: Extract/Extract.v Base/Sexp.vos Extract/Driver.vos
@@ -112,3 +118,9 @@ Proofs/C20Facts.vos Proofs/C20Facts.vok Proofs/C20Facts.required_vos: Proofs/C20
 Props/C20.vo Props/C20.glob Props/C20.v.beautified Props/C20.required_vo: Props/C20.v Base/Str.vo Model/FM.vo Model/Queries.vo Model/EqHash.vo Proofs/C20Facts.vo
 Props/C20.vio: Props/C20.v Base/Str.vio Model/FM.vio Model/Queries.vio Model/EqHash.vio Proofs/C20Facts.vio
 Props/C20.vos Props/C20.vok Props/C20.required_vos: Props/C20.v Base/Str.vos Model/FM.vos Model/Queries.vos Model/EqHash.vos Proofs/C20Facts.vos
+Proofs/JsonFacts.vo Proofs/JsonFacts.glob Proofs/JsonFacts.v.beautified Proofs/JsonFacts.required_vo: Proofs/JsonFacts.v Base/Result.vo Base/Str.vo Base/AstOp.vo Gen/Tables_core.vo Model/Ast.vo Model/FM.vo Model/PFM.vo Model/Queries.vo Gen/Tables_json.vo Format/Json.vo
+Proofs/JsonFacts.vio: Proofs/JsonFacts.v Base/Result.vio Base/Str.vio Base/AstOp.vio Gen/Tables_core.vio Model/Ast.vio Model/FM.vio Model/PFM.vio Model/Queries.vio Gen/Tables_json.vio Format/Json.vio
+Proofs/JsonFacts.vos Proofs/JsonFacts.vok Proofs/JsonFacts.required_vos: Proofs/JsonFacts.v Base/Result.vos Base/Str.vos Base/AstOp.vos Gen/Tables_core.vos Model/Ast.vos Model/FM.vos Model/PFM.vos Model/Queries.vos Gen/Tables_json.vos Format/Json.vos
+Props/C05.vo Props/C05.glob Props/C05.v.beautified Props/C05.required_vo: Props/C05.v Base/Result.vo Model/FM.vo Model/PFM.vo Format/Json.vo Proofs/JsonFacts.vo
+Props/C05.vio: Props/C05.v Base/Result.vio Model/FM.vio Model/PFM.vio Format/Json.vio Proofs/JsonFacts.vio
+Props/C05.vos Props/C05.vok Props/C05.required_vos: Props/C05.v Base/Result.vos Model/FM.vos Model/PFM.vos Format/Json.vos Proofs/JsonFacts.vos
